@@ -56,6 +56,16 @@ Theorem C17_variants_same_key :
 Proof. exact key_congruence. Qed.
 Print Assumptions C17_variants_same_key.
 
+(* The letter case of the ASCII letters of a domain does not change its lookup key - also when
+   they spell an ACE prefix (XN--...), which the IDNA library itself recognises in lower case only.
+   The hypothesis says that strings.ToLower lower-cases ASCII letters. *)
+Theorem C17_ascii_case_of_domain_irrelevant :
+  forall nfc lower tou d d',
+    (forall s, lower (ascii_lower s) = lower s) ->
+    ascii_lower d = ascii_lower d' -> dns_for_lookup nfc lower tou d = dns_for_lookup nfc lower tou d'.
+Proof. exact dns_for_lookup_ascii_case. Qed.
+Print Assumptions C17_ascii_case_of_domain_irrelevant.
+
 (* Partial (library behaviour assumed, not proved): idempotence of the lookup key for
    addresses whose domain the IDNA library canonicalises ([good]); the hypotheses are the
    premises of the statement and are tested against the real library by the harness. *)
@@ -63,7 +73,7 @@ Theorem C17_for_lookup_idempotent_partial :
   forall nfc lower tou (good : str -> bool),
     (forall s, lower (nfc (lower (nfc s))) = lower (nfc s)) ->
     (forall s, s <> [] -> lower (nfc s) <> []) ->
-    (forall d, good d = true -> exists u, tou d = Some u /\
+    (forall d, good d = true -> exists u, tou (ascii_lower d) = Some u /\
         let k := trim_dot (lower (nfc u)) in
         k <> [] /\ ~ In AT k /\ dns_for_lookup nfc lower tou k = (k, true)) ->
     forall a m d, split a = Some (m, d) -> d <> [] -> good d = true ->
